@@ -1309,7 +1309,10 @@ Section FlushBody.
         Good (objs sZ) n (work sZ) [] [] /\ J (objs sZ) n /\ Rel g fZ (objs sZ) n [] [] (work sZ) /\
         (forall x, oin (objs sZ x) = true -> omod (objs sZ x) = false) /\
         snew sZ = [] /\ sdel sZ = [] /\ nobj sZ = n /\ committed sZ = committed s0 /\ saves sZ = saves s0 /\
-        nfid sZ = nfid s0 /\ eoc sZ = eoc s0 /\ handles sZ = handles s0) /\
+        nfid sZ = nfid s0 /\ eoc sZ = eoc s0 /\ handles sZ = handles s0 /\
+        (* new key switches come from unflushed primary-key changes *)
+        (forall x, ks_find x (fks fZ) <> None ->
+           ks_find x (fks f) <> None \/ (oin (objs s0 x) = true /\ upd_sets_id (objs s0 x) = true))) /\
     (r <> Ok -> SigL s0 g f sZ).
   Proof.
     intros fk fc r sZ H Hr. unfold flush_body_k in H.
@@ -1404,6 +1407,36 @@ Section FlushBody.
     rewrite A4.
     split; [eapply Good_obj_ext; eauto|]. split; [eapply J_obj_ext; eauto|]. split; [eapply Rel_obj_ext; eauto|].
     split; [intros x Hx; rewrite <- Ext in *; apply Cz; auto|].
-    repeat split; auto; congruence.
+    assert (KS : forall x, ks_find x (ks_after (fun o => okey (objs s1 o)) (ikof s1) (filter (fun o => mem o new || mem o dirty) (seq 0 (nobj s1))) (fks f)) <> None ->
+               ks_find x (fks f) <> None \/ (oin (objs s0 x) = true /\ upd_sets_id (objs s0 x) = true)).
+    { intros x Hx. rewrite ks_after_find in Hx by (apply NoDup_filter; apply seq_NoDup).
+      destruct (mem x (filter (fun o => mem o new || mem o dirty) (seq 0 (nobj s1)))) eqn:Em; [|left; exact Hx].
+      destruct (okey (objs s1 x)) as [k|] eqn:Ek; [|left; exact Hx].
+      destruct (Z.eqb k (ikof s1 x)) eqn:Ez; [left; exact Hx|].
+      destruct (ks_find x (fks f)) eqn:Efk; [left; discriminate|]. right.
+      pose proof (sl_le _ _ _ _ L1 x) as [O1 [O2 [O3 [O4 [O5 [O6 [O7 [O8 O9]]]]]]]].
+      assert (Ek0 : okey (objs s0 x) = Some k) by congruence.
+      pose proof Em as Em'. apply mem_In in Em'. apply filter_In in Em'. destruct Em' as [Em1 Em2].
+      assert (Hxd : In x dirty).
+      { apply orb_prop in Em2. destruct Em2 as [E|E]; apply mem_In in E; auto.
+        apply (g_new _ _ _ _ _ G0) in E. destruct E as [_ [E _]]. congruence. }
+      apply Hdirty in Hxd. destruct Hxd as [Hxn [Hxi [Hxm _]]]. split; [exact Hxi|].
+      rewrite Hn1 in Em. pose proof (Hdid x Em) as Hd1.
+      destruct (odid (objs s1 x)) as [d|] eqn:Ed1; [|congruence].
+      assert (Eik : ikof s1 x = d) by (unfold ikof; rewrite Ed1; reflexivity). rewrite Eik in Ez.
+      destruct (g_rows _ _ _ _ _ G0 x k Hxi Ek0) as [v [Hv [V1 [V2 _]]]].
+      destruct (odid (objs s0 x)) as [d0|] eqn:Ed0.
+      - assert (d0 = d). { assert (X : Some d = Some d0) by (apply O8; discriminate). congruence. }
+        subst d0. unfold upd_sets_id. rewrite Ed0.
+        destruct (ocid (objs s0 x)) as [old|] eqn:Ec.
+        + destruct (V2 old eq_refl) as [X _]. subst old. rewrite Ez. reflexivity.
+        + exfalso. destruct (V1 eq_refl) as [X|X]; [discriminate|]. inversion X; subst. rewrite Z.eqb_refl in Ez. discriminate.
+      - exfalso. destruct (J0 x Hxn) as [_ [Jb _]].
+        assert (Ec : ocid (objs s0 x) = None). { destruct (ocid (objs s0 x)); auto. exfalso. apply Jb; [discriminate|exact Ed0]. }
+        assert (Ec1 : ocid (objs s1 x) = None) by congruence.
+        assert (Hi1 : oin (objs s1 x) = true) by congruence.
+        destruct (g_rows _ _ _ _ _ (sl_good _ _ _ _ L1) x k Hi1 Ek) as [v1 [_ [W1 _]]].
+        destruct (W1 Ec1) as [X|X]; [congruence|]. rewrite Ed1 in X. inversion X; subst. rewrite Z.eqb_refl in Ez. discriminate. }
+    repeat split; auto; try congruence.
   Qed.
 End FlushBody.
